@@ -5,6 +5,9 @@ import json, subprocess
 HOOK_COMMITS = []  # filled in as hook commits are made in /repo
 
 CHECKS = {
+ "C12": dict(cat="exploration", technique="runtime metamorphic monitor: the same query with and without ORDER BY / LIMIT run through the real engine; sortedness, permutation, prefix and rejection oracles on the observed row sequences",
+   text="Sampled: 2.5 k (quick) to 40 k (thorough) base queries x ORDER BY lists x LIMIT values (valid and invalid) over dense data with negative/fractional numbers and anchors in two zones, incl. plain single-clause queries (limit push-down) and row-dropping clauses.",
+   note="Columns mixing kinds carry no ordering requirement; the exclusion check is skipped when a key column shows one value under two spellings (counted).", ref="DESIGN.md §5 C12"),
  "C11": dict(cat="exploration", technique="runtime metamorphic monitor: the grouped query's table is compared with a reference grouping of the rows the real engine returns for the same pattern without GROUP BY",
    text="Sampled: 2.5 k (quick) to 32 k (thorough) aggregate queries over dense numeric data: 1-2 grouping bindings or aliases, mixed-kind key columns, count / count(distinct) / sum in any mix and order, empty patterns.",
    note="Decoupled from C03: the input of the reference grouping is the engine's own ungrouped result; sums compared exactly for int64, with a relative tolerance for float64.", ref="DESIGN.md §5 C11"),
